@@ -240,9 +240,10 @@ func runTScenario(t *testing.T, raw []byte) (lines []M, problem string) {
 					// the canceller is its own goroutine (the controller goes on with the script)
 					rec.tline(M{"ev": "CtxCancel", "x": e.X}, nil)
 					wg.Add(1)
+					cf := cancels[e.X]
 					go func(x int) {
 						defer wg.Done()
-						cancels[x]()
+						cf()
 						rec.tline(M{"ev": "CancelRet", "x": x}, nil)
 					}(e.X)
 				case "AsyncCancel":
@@ -381,7 +382,11 @@ func init() {
 				t.Run("w", func(t *testing.T) {
 					t.Parallel()
 					for j := range ch {
-						res[j.idx], probs[j.idx] = runTScenario(t, j.raw)
+						// its own subtest: a failure inside (e.g. the race detector marking the test failed) ends only this scenario
+						probs[j.idx] = "scenario aborted (test failed inside the bubble)"
+						t.Run("s", func(t *testing.T) {
+							res[j.idx], probs[j.idx] = runTScenario(t, j.raw)
+						})
 					}
 				})
 			}
